@@ -227,7 +227,7 @@ bool DOMNodeIteratorImpl::acceptNode (DOMNode* node) {
 /** Return node, if matches or any parent if matches. */
 DOMNode* DOMNodeIteratorImpl::matchNodeOrParent (DOMNode* node) {
 
-    for (DOMNode* n = fCurrentNode; n != fRoot; n = n->getParentNode()) {
+    for (DOMNode* n = fCurrentNode; n != 0 && n != fRoot; n = n->getParentNode()) {
         if (node == n) return n;
     }
 
